@@ -215,7 +215,19 @@ pub fn clean_location(rng: &mut Rng, original: &UriRef) -> (&'static str, String
             let h = *rng.pick(&CLEAN_HOSTS);
             ("scheme-relative", format!("//{}{}{}", h, clean_path(rng), clean_query(rng)))
         }
-        5 | 6 => ("path-absolute", format!("{}{}", clean_path(rng), clean_query(rng))),
+        5 => ("path-absolute", format!("{}{}", clean_path(rng), clean_query(rng))),
+        6 => {
+            // path-absolute with dot segments: remove_dot_segments applies to these too (RFC 3986 5.2.2)
+            let mut s = String::new();
+            for _ in 0..rng.usize_in(1, 4) {
+                s.push('/');
+                s.push_str(*rng.pick(&["..", ".", "a", "b", "..", "c.d"]));
+            }
+            if rng.chance(1, 3) {
+                s.push('/');
+            }
+            ("path-absolute-dots", format!("{}{}", s, clean_query(rng)))
+        }
         7 => {
             let mut s = String::new();
             for _ in 0..rng.usize_in(0, 3) {
